@@ -528,7 +528,8 @@ class World:
             )
         call = self.ng_calls[idx]
         call['joined'][me] = key
-        self.log(me, 'new_group', idx=idx, ranks=list(key), owner=_owner())
+        self.log(me, 'new_group', idx=idx, ranks=list(key), owner=_owner(),
+                 at=(getattr(_tls, 'ctx', None) or {}).get('n', -1) + 1)
         self.block_on(('slot', _NGSlot(call)))
         gid = call['gids'].get(key)
         if gid is None or me not in key:
